@@ -18,6 +18,7 @@ from props import c08
 from props.c08 import F32, F64, finite, parse_box, parse_ring, area, edges, cross, seg_cross, sh_clip_exact, rect_exact
 
 KEY_KNOWN = "C15:geo-difference:collinear-edges"
+KEY_NORETURN = "C15:geo-difference:no-return"
 EPS = Fr(1, 100000)
 TOL = 2e-5
 
@@ -36,8 +37,9 @@ def parse_set(line):
     r["boxes"] = [parse_box(x) for x in d["boxes"].split(";")]
     r["cs"] = [tuple(F64(int(v)) for v in x.split(":")) for x in d["cs"].split(";")]
     r["verts"] = [parse_ring(x)[:-1] for x in d["verts"].split(";")]
-    r["res"] = None if d["res"] == "P" else [F32(int(x)) for x in d["res"].split(",")]
-    r["own"] = None if d["own"] == "P" else [F64(int(x)) for x in d["own"].split(",")]
+    r["timeout"] = d["res"] == "T"
+    r["res"] = None if d["res"] in ("P", "T") else [F32(int(x)) for x in d["res"].split(",")]
+    r["own"] = None if d["own"] in ("P", "T") else [F64(int(x)) for x in d["own"].split(",")]
     r["tf"] = d["tf"]
     r["areas32"] = [F32(int(x)) for x in d["areas"].split(",")]
     r["samp"] = [F64(int(x)) for x in d["samp"].split(",")] if "samp" in d else None
@@ -45,7 +47,9 @@ def parse_set(line):
     if d.get("perms", "-") != "-":
         for p in d["perms"].split("|"):
             idx, res = p.split(">")
-            perms.append(([int(c) for c in idx], None if res == "P" else [F32(int(x)) for x in res.split(",")]))
+            if res == "T":
+                r["timeout"] = True
+            perms.append(([int(c) for c in idx], None if res in ("P", "T") else [F32(int(x)) for x in res.split(",")]))
     r["perms"] = perms
     return r
 
@@ -208,11 +212,13 @@ def expected_shares(r):
 def oracle(r, exp=None):
     fails = []
     n = len(r["boxes"])
-    if r["res"] is None:
+    if r.get("timeout"):
+        fails.append("exclusively_owned_areas did not return within the watchdog time (a normal call takes milliseconds)")
+    if r["res"] is None and not r.get("timeout"):
         fails.append("panic: exclusively_owned_areas did not complete")
     for (p, res) in r["perms"]:
         if res is None:
-            fails.append("panic for the input order %s" % "".join(map(str, p)))
+            fails.append("no result for the input order %s (panic or no return)" % "".join(map(str, p)))
     if exp is None:
         exp = expected_shares(r)
     if r["res"] is not None:
@@ -316,8 +322,15 @@ def run(chk):
         chk.coverage.update({"evaluations": 0})
         return
     n_sets, n_ie = (800, 32) if chk.tier == "quick" else (6000, 300)
-    rc, out, err = vlib.harness_run("geom", ["sets", "--seed", chk.seed, "--n", n_sets], timeout=2400)
-    cases = [parse_set(l) for l in out.split("\n") if l.startswith("set ")]
+    cases, start = [], 0
+    for _ in range(40):
+        # exit code 3 = the last record printed is a call that did not return (res=T): resume after it
+        rc, out, err = vlib.harness_run("geom", ["sets", "--seed", chk.seed, "--n", n_sets, "--from", start], timeout=2400)
+        part = [parse_set(l) for l in out.split("\n") if l.startswith("set ")]
+        cases += part
+        if rc != 3 or not part:
+            break
+        start = part[-1]["k"] + 1
     chk.log("implementation ran %d box sets" % len(cases))
 
     hist = Counter()
@@ -339,12 +352,14 @@ def run(chk):
         stats["boxes_fully_covered"] += sum(1 for (u, a, e) in exp if u == 0)
         stats["boxes_free"] += sum(1 for (u, a, e) in exp if u == a)
         stats["permutations_run"] += len(r["perms"])
-        if r["res"] is None or any(res is None for _, res in r["perms"]):
+        if r.get("timeout"):
+            stats["sets_with_no_return"] += 1
+        elif r["res"] is None or any(res is None for _, res in r["perms"]):
             stats["sets_with_panic"] += 1
         if fails:
             failing.append((r, fails, rotated_collinear_family(r)))
-    chk.log("property oracles: %d failing sets (%d in the rotated collinear-edge family, %d with a panic)"
-            % (len(failing), sum(1 for f in failing if f[2]), stats["sets_with_panic"]))
+    chk.log("property oracles: %d failing sets (%d in the rotated collinear-edge family, %d with a panic, %d with a call that did not return)"
+            % (len(failing), sum(1 for f in failing if f[2]), stats["sets_with_panic"], stats["sets_with_no_return"]))
 
     # ---- model vs implementation ----
     disagreements = []
@@ -443,15 +458,18 @@ def run(chk):
         "model_vs_impl_disagreements_in_known_family": len(dis_known),
     })
 
-    known_f = [f for f in failing if f[2]]
+    noret_f = [f for f in failing if f[2] and f[0].get("timeout")]
+    known_f = [f for f in failing if f[2] and not f[0].get("timeout")]
     other_f = [f for f in failing if not f[2]]
 
     def report(group, key, title):
         group = sorted(group, key=lambda f: len(f[0]["boxes"]))
         r, fails, _ = group[0]
-        want_known = key == KEY_KNOWN
+        want_known = key in (KEY_KNOWN, KEY_NORETURN)
 
         def pred(rr):
+            if key == KEY_NORETURN and not rr.get("timeout"):
+                return False
             return bool(oracle(rr)) and rotated_collinear_family(rr) == want_known
         boxes = shrink_set(r, pred)
         rr = eval_set(boxes) or r
@@ -460,7 +478,7 @@ def run(chk):
         if chk.is_known(key):
             # a known finding writes no violation replay: keep the (shrunk) witness of this run next to the fixed
             # minimised pair of the corpus so that it can be replayed with ./check C15 --replay
-            with open(os.path.join(chk.out_root, "replay", "C15", "known_geo_difference.json"), "w") as fh:
+            with open(os.path.join(chk.out_root, "replay", "C15", "known_%s.json" % key.split(":")[-1]), "w") as fh:
                 json.dump({"property": "C15", "key": key, "input": line, "decoded": [c08.decoded(b) for b in boxes],
                            "minimised_pair": "set cfg=replay boxes=0:0:1048576000:1056964608:1065353216;0:0:1048576000:1065353216:1065353216",
                            "failures": ff, "panic_sites": rr["panic_sites"], "failing_sets_in_this_run": len(group)}, fh, indent=1)
@@ -474,6 +492,8 @@ def run(chk):
                        "broken": chk.broken})
     if known_f:
         report(known_f, KEY_KNOWN, "geo 0.27 BooleanOps::difference fails on rotated boxes sharing edge lines")
+    if noret_f:
+        report(noret_f, KEY_NORETURN, "geo 0.27 BooleanOps::difference does not return on rotated boxes with shared / almost collinear edges")
     if other_f:
         report(other_f, "C15:oracle", "the implementation violates the property text")
     if not failing and dis_known:
